@@ -112,7 +112,7 @@ mod verif_c03 {
 
     fn two_states<const N: usize>() -> (OrSWotSet<N>, OrSWotSet<N>, u64) {
         let base: u32 = kani::any();
-        kani::assume(base >= 3600 && base < u32::MAX - 3600);
+        kani::assume(base < u32::MAX - 3600);
         let a = any_state::<N>();
         let b = any_state::<N>();
         kani::assume(all_in_window(&a, base as u64) && all_in_window(&b, base as u64));
@@ -188,7 +188,7 @@ mod verif_c03 {
     fn c03_self_merge_n2() {
         let mut a = any_state::<2>();
         let base: u32 = kani::any();
-        kani::assume(base >= 3600 && base < u32::MAX - 3600);
+        kani::assume(base < u32::MAX - 3600);
         kani::assume(all_in_window(&a, base as u64) && distinct_ops(&a, &a));
         let a0 = a.clone();
         a.merge(a0.clone());
